@@ -65,3 +65,20 @@ SPEC = dict(
 
 def run(tier, seed):
     return svlib.run_spec(SPEC, tier, seed)
+
+MANIFEST = dict(
+    claimed=True,
+    technique="Lean 4 theorems over operand-complete models of Rust integer/BigUint ops and FuelVM ALU/wide-int instructions, "
+              "quantified over the fold tables REGENERATED from constants.rs / const_eval.rs / u256.rs on every run "
+              "(fail-closed translator) + differential correspondence (real const-folding pass vs real VM)",
+    text="proof: C06_binop, C06_cmp, C06_unop, C06_no_subst_on_revert, C06_useless_binop, C06_narrow_arith_std, "
+         "u256_shl_bounded, C06_ct_never_crashes hold for EVERY arm of the generated tables and ALL in-range operands "
+         "(u64 payloads, 256-bit values): a folded value equals what the emitted VM instruction yields, and nothing is "
+         "folded when the run-time op would panic. An edit to an arm changes the generated table and breaks table_checked; "
+         "the harness then finds the failing operand by running the real pass against the real interpreter (40k IR + 1.5k "
+         "Sway const cases quick).",
+    note="partial for aggregates/casts/const-fn calls (reached only through the Sway stream, no theorem) and for raw u8 "
+         "intrinsics at IR level (C06_unop_ir_partial with a decide witness; std's ops mask/range-check). Trusted: "
+         "gen/fold_table.py, the hand models of u64/BigUint ops and fuel-vm 0.66.4 ALU/WQ* semantics (tied by running the "
+         "real interpreter), rustc. Upstream defects repaired: db9ea37, 53b7855, 209dff0.",
+)
